@@ -63,7 +63,7 @@ pub fn gen(rng: &mut Prng) -> Cfg {
         d_us: *rng.pick(&[20_000u64, 50_000, 100_000, 200_000]),
         thr: *rng.pick(&[0.0, 0.25, 0.5, 0.5, 0.75, 1.0, 0.3, 0.6]),
         min_calls: None,
-        wait_us: *rng.pick(&[10_000u64, 30_000, 100_000]),
+        wait_us: *rng.pick(&[10_000u64, 30_000, 100_000, 10_000, 30_000, 0, 1000]),
         permitted: rng.range(1, 4) as usize,
         slow_thr_us: if rng.chance(0.4) { Some(*rng.pick(&[5_000u64, 10_000])) } else { None },
         slow_rate: *rng.pick(&[0.25, 0.5, 1.0, 0.75]),
@@ -90,7 +90,8 @@ pub fn gen(rng: &mut Prng) -> Cfg {
         c.slow_thr_us = None;
         c.custom_classifier = false;
     } else {
-        c.min_calls = match rng.below(5) {
+        c.min_calls = match rng.below(6) {
+            5 => Some(0),
             0 => None,
             1 => Some(1),
             2 => Some(c.w.saturating_sub(1).max(1)),
@@ -132,7 +133,7 @@ pub fn gen(rng: &mut Prng) -> Cfg {
             };
             StepK::Call { kind, lat_us }
         } else if r < 92 {
-            let opts = [1000, c.wait_us - 1000, c.wait_us, c.wait_us + 1000, c.d_us / 2, c.d_us, c.d_us + 1000, c.d_us - 1000, 2 * c.wait_us];
+            let opts = [1000, c.wait_us.saturating_sub(1000), c.wait_us, c.wait_us + 1000, c.d_us / 2, c.d_us, c.d_us + 1000, c.d_us - 1000, 2 * c.wait_us];
             StepK::Wait(*rng.pick(&opts))
         } else if r < 95 {
             StepK::ForceOpen
